@@ -69,7 +69,7 @@ pub fn c09_roundtrip<'a, T: Derived<'a> + Debug>(want: &T, back: Result<T, Error
 }
 
 #[derive(Debug)]
-pub enum Expect { TagMismatch, AnyError, MissingValue, UnknownVariant }
+pub enum Expect { TagMismatch, AnyError, MissingValue, UnknownVariant, WrongValue }
 pub struct Negative { pub what: String, pub item: Item, pub expect: Expect }
 
 fn strip_tag(i: &Item) -> (Option<u64>, &Item) { match i { Item::Tag(t, _, x) => (Some(*t), &**x), o => (None, o) } }
@@ -96,6 +96,13 @@ fn body_negatives(body: &Item, enc: Enc, fields: &[FDesc], rebuild: &dyn Fn(Item
                         }
                     }
                 }
+                // a value no field type of the population accepts (an unassigned simple value) in the field's place: optional and
+                // nil-capable fields have to report it too - only null, a missing entry or an unknown variant mean "absent"
+                {
+                    let bad = match (&xs[i], f.tag) { (Item::Tag(t0, w, _), Some(t)) if *t0 == t => Item::Tag(*t0, *w, Box::new(Item::Simple(99))), _ => Item::Simple(99) };
+                    let mut ys = xs.clone(); ys[i] = bad;
+                    out.push(Negative { what: format!("field #{}: value replaced by simple(99)", f.idx), item: rebuild(Item::array(ys)), expect: Expect::WrongValue });
+                }
                 if !f.can_be_absent {
                     let ys: Vec<Item> = xs[.. i].to_vec();
                     out.push(Negative { what: format!("mandatory field #{} cut off (array truncated before it)", f.idx), item: rebuild(Item::array(ys)), expect: Expect::MissingValue });
@@ -118,6 +125,11 @@ fn body_negatives(body: &Item, enc: Enc, fields: &[FDesc], rebuild: &dyn Fn(Item
                             }
                         }
                     }
+                }
+                {
+                    let bad = match (&xs[pos].1, f.tag) { (Item::Tag(t0, w, _), Some(t)) if *t0 == t => Item::Tag(*t0, *w, Box::new(Item::Simple(99))), _ => Item::Simple(99) };
+                    let mut ys = xs.clone(); ys[pos].1 = bad;
+                    out.push(Negative { what: format!("field #{}: value replaced by simple(99)", f.idx), item: rebuild(Item::map(ys)), expect: Expect::WrongValue });
                 }
                 if !f.can_be_absent {
                     let mut ys = xs.clone(); ys.remove(pos);
@@ -199,11 +211,11 @@ pub fn c09_negative(neg: &Negative, enc: &[u8], r: Result<String, Error>, st: &m
                 Expect::TagMismatch => ensure!(e.is_tag_mismatch(), "error-class", "{}: {} failed with `{}`, not with a tag mismatch", neg.what, short_hex(enc), e),
                 Expect::MissingValue => ensure!(e.is_missing_value(), "error-class", "{}: {} failed with `{}`, not with a missing-value error", neg.what, short_hex(enc), e),
                 Expect::UnknownVariant => ensure!(e.is_unknown_variant(), "error-class", "{}: {} failed with `{}`, not with an unknown-variant error", neg.what, short_hex(enc), e),
-                Expect::AnyError => {}
+                Expect::AnyError | Expect::WrongValue => {}
             }
         }
     }
-    st.class(match neg.expect { Expect::TagMismatch => "negative/wrong-tag", Expect::AnyError => "negative/removed-tag", Expect::MissingValue => "negative/missing-mandatory", Expect::UnknownVariant => "negative/unknown-variant" });
+    st.class(match neg.expect { Expect::TagMismatch => "negative/wrong-tag", Expect::AnyError => "negative/removed-tag", Expect::MissingValue => "negative/missing-mandatory", Expect::UnknownVariant => "negative/unknown-variant", Expect::WrongValue => "negative/wrong-type-value" });
     st.nontrivial(hash_of(&(enc, neg.what.len())));
     Ok(())
 }
